@@ -2,6 +2,7 @@ import Driver.Loop
 import Driver.Codec
 import PyGqlModel.Coerce
 import PyGqlModel.CoerceExec
+import PyGqlModel.PyNum
 open PyGql PyGql.Coerce
 
 /-! Line-protocol driver of C07 (wire formats: harness/corr/C07_universe.py). -/
@@ -236,6 +237,17 @@ def handleC07 (j : J) : J :=
     let reg := C07Codec.regOfWire (j.getD "reg")
     let fuel := j.natD "fuel" 400
     .obj [("r", .arr ((j.arrD "items").map (C07Codec.item reg fuel)))]
+  | "pynum" =>
+    let str := j.strD "s"
+    let fl : J := match PyGql.PyNum.pyFloat str with
+      | none => .null
+      | some d =>
+        match d with
+        | .finite neg m e => .obj [("cls", .str "finite"), ("neg", .bool neg), ("m", J.ofNat m), ("e", .num e),
+                                   ("int", J.ofOpt .num d.integral)]
+        | .inf neg => .obj [("cls", .str "inf"), ("neg", .bool neg)]
+        | .nan => .obj [("cls", .str "nan")]
+    .obj [("i10", J.ofOpt .num (PyGql.PyNum.pyInt10 str)), ("flt", fl)]
   | "int_range" => .obj [("ok", .bool (PyGql.Generated.Scalars.intInRange (j.intD "n")))]
   | _ => .obj [("error", .str "bad-op")]
 
